@@ -16,7 +16,7 @@ func init() {
 
 func c09(p *core.Prog, res *core.Result) {
 	res.Explanation = "C09 (structural clauses only — the thinnest claim of the set): Q1 key builder/parser agreement for the index key families (field, term, entry, doc) and their prefix builders; " +
-		"Q2 the fixed width the entry-key parser cuts for number terms equals the width the number encoder emits; " +
+		"Q5 every store operation of the index receives a key of the right kind — Set/Delete/Get/HasKey a full key, DeletePrefix and prefix scans a separator-terminated prefix built by a prefix builder (a prefix without its terminator also matches the keys of every field whose name merely starts the same way); Q2 the fixed width the entry-key parser cuts for number terms equals the width the number encoder emits; " +
 		"Q3 no index query returns a channel it has filled synchronously (a bounded buffer filled before anybody can read deadlocks once the answer exceeds the buffer); " +
 		"Q4 every index query closes the channel it returns on every path of its producer goroutine."
 	res.NotDecided = []string{"everything value-level: stale entries after replacement, lazy counts, sign-aware ordering of number terms, removal — index = scan equality is not decided"}
@@ -30,6 +30,8 @@ func c09(p *core.Prog, res *core.Result) {
 		return
 	}
 	codecAgreement(p, res, ki, "Q1")
+	res.Rule("Q5", "key-kind typing: exact-key operations take full keys, prefix operations take separator-terminated prefixes (kvindex)", 15)
+	keyKindTyping(p, res, ki, "Q5")
 	c09width(p, res)
 	n := 0
 	for _, fi := range p.AllDecls() {
